@@ -1,7 +1,7 @@
 /* C16 valid UTF-8 in -> valid UTF-8 out.  Inputs are valid by construction; oracle: strict UTF-8 DFA over every output. */
 #include "space.h"
 static k_alpha *A, *P, *Q; static char docbuf[1 << 16];
-static const short FM[7] = { FORMAT_HTML, FORMAT_LATEX, FORMAT_BEAMER, FORMAT_MEMOIR, FORMAT_FODT, FORMAT_OPML, FORMAT_MMD };
+static const short FM[8] = { FORMAT_HTML, FORMAT_LATEX, FORMAT_BEAMER, FORMAT_MEMOIR, FORMAT_FODT, FORMAT_OPML, FORMAT_MMD, FORMAT_EPUB /* the XHTML text a string conversion returns for EPUB */ };
 static const unsigned long SM[4] = { EXT_DEFAULT, EXT_DEFAULT & ~EXT_SMART, EXT_COMPAT_SET, EXT_DEFAULT | EXT_COMPLETE };
 static void conv(const char *doc, size_t n, int fmt, unsigned long ext, int lang) {
 	size_t bad;
@@ -29,21 +29,21 @@ static const int C14[23] = { 0, 1, 2, 3, 4, 5, 6, 7, 8, 9, 10, 11, 12, 13, 14, 1
 static const int C1[1] = { 0 };
 int main(int argc, char **argv) {
 	A = k_alpha_load("utf8"); P = k_alpha_load("ctx16_pre"); Q = k_alpha_load("ctx16_post");
-	SP[0] = (space){ .a = A, .minlen = 1, .maxlen = 2, .pre = P, .post = Q, .ctxs = C14, .nctx = 23, .fmts = FM, .nfmt = 7, .exts = SM, .next = 4, .nlang = 7 };
-	SP[1] = (space){ .a = A, .minlen = 3, .maxlen = 3, .pre = P, .post = Q, .ctxs = C1, .nctx = 1, .fmts = FM, .nfmt = 7, .exts = SM, .next = 2 };
-	SP[2] = (space){ .a = A, .minlen = 3, .maxlen = 3, .pre = P, .post = Q, .ctxs = C14, .nctx = 23, .fmts = FM, .nfmt = 7, .exts = SM, .next = 4 };
+	SP[0] = (space){ .a = A, .minlen = 1, .maxlen = 2, .pre = P, .post = Q, .ctxs = C14, .nctx = 23, .fmts = FM, .nfmt = 8, .exts = SM, .next = 4, .nlang = 7 };
+	SP[1] = (space){ .a = A, .minlen = 3, .maxlen = 3, .pre = P, .post = Q, .ctxs = C1, .nctx = 1, .fmts = FM, .nfmt = 8, .exts = SM, .next = 2 };
+	SP[2] = (space){ .a = A, .minlen = 3, .maxlen = 3, .pre = P, .post = Q, .ctxs = C14, .nctx = 23, .fmts = FM, .nfmt = 8, .exts = SM, .next = 4 };
 	SP[3] = (space){ .a = A, .minlen = 4, .maxlen = 4, .pre = P, .post = Q, .ctxs = C1, .nctx = 1, .fmts = FM, .nfmt = 6, .exts = SM, .next = 2 };
 	/* sources that come in through the OPML reader: pure-ASCII character references and literal multi-byte characters in every attribute the reader decodes */
 	static const unsigned long XM[2] = { EXT_DEFAULT | EXT_PARSE_OPML, EXT_COMPAT_SET | EXT_PARSE_OPML }; static const int C5[5] = { 0, 1, 2, 3, 4 };
 	k_alpha *AX = k_alpha_load("utf8xml"), *PX = k_alpha_load("ctxopml_pre"), *QX = k_alpha_load("ctxopml_post");
-	SP[4] = (space){ .a = AX, .minlen = 1, .maxlen = 2, .pre = PX, .post = QX, .ctxs = C5, .nctx = 5, .fmts = FM, .nfmt = 7, .exts = XM, .next = 2 };
-	SP[5] = (space){ .a = AX, .minlen = 3, .maxlen = 3, .pre = PX, .post = QX, .ctxs = C5, .nctx = 5, .fmts = FM, .nfmt = 7, .exts = XM, .next = 1 };
+	SP[4] = (space){ .a = AX, .minlen = 1, .maxlen = 2, .pre = PX, .post = QX, .ctxs = C5, .nctx = 5, .fmts = FM, .nfmt = 8, .exts = XM, .next = 2 };
+	SP[5] = (space){ .a = AX, .minlen = 3, .maxlen = 3, .pre = PX, .post = QX, .ctxs = C5, .nctx = 5, .fmts = FM, .nfmt = 8, .exts = XM, .next = 1 };
 	k_level L[] = {
-		{ "q_opml_import_len2", space_count(&SP[4]), run4, desc4, "qt", "character references and multi-byte characters len<=2 in 5 positions of an OPML SOURCE (outline title, note, nested title, head title, metadata value) x 7 formats x {MMD,compat}" },
+		{ "q_opml_import_len2", space_count(&SP[4]), run4, desc4, "qt", "character references and multi-byte characters len<=2 in 5 positions of an OPML SOURCE (outline title, note, nested title, head title, metadata value) x 8 formats x {MMD,compat}" },
 		{ "t_opml_import_len3", space_count(&SP[5]), run5, desc5, "t", "the same, len 3, MMD" },
-		{ "q_len2_positions", space_count(&SP[0]), run0, desc0, "qt", "UTF-8/syntax sequences len<=2 in 23 positions x 7 textual formats x 4 option sets x 7 languages" },
-		{ "q_len3_body", space_count(&SP[1]), run1, desc1, "qt", "sequences len 3 in body text x 7 formats x smart on/off" },
-		{ "t_len3_positions", space_count(&SP[2]), run2, desc2, "t", "sequences len 3 in 23 positions x 7 formats x 4 option sets" },
+		{ "q_len2_positions", space_count(&SP[0]), run0, desc0, "qt", "UTF-8/syntax sequences len<=2 in 23 positions x 8 textual formats x 4 option sets x 7 languages" },
+		{ "q_len3_body", space_count(&SP[1]), run1, desc1, "qt", "sequences len 3 in body text x 8 formats x smart on/off" },
+		{ "t_len3_positions", space_count(&SP[2]), run2, desc2, "t", "sequences len 3 in 23 positions x 8 formats x 4 option sets" },
 		{ "t_len4_body", space_count(&SP[3]), run3, desc3, "t", "sequences len 4 in body text x 6 formats x smart on/off" },
 	};
 	return k_main(argc, argv, L, sizeof L / sizeof L[0]);
